@@ -79,14 +79,24 @@ extern "C" void harness_treelinks(void) {
 #else
   int p = nondet_u8() % 4;
 #endif
-  int c = nondet_u8() % 4, r = (int)(nondet_u8() % 5) - 1;                           // new/old child, reference child (or none)
+#ifdef CFIX
+  int c = CFIX, r = (int)(nondet_u8() % 5) - 1;
+#else
+  int c = nondet_u8() % 4, r = (int)(nondet_u8() % 5) - 1;
+#endif                           // new/old child, reference child (or none)
+#ifdef SMALL
+  // reduced operand space: only E1 and T take part (E2 and F exist but stay unlinked and are never operands)
+  VX_ASSUME(pr[0] == -1 && pr[1] == -1 && (pr[2] == -1 || pr[2] == 0) && (c == 0 || c == 2) && (r == -1 || r == 0 || r == 2));
+#endif
   int code = -1; DOMNode* ret = 0;
+#ifndef NOOP
   try {
     if (op == 0) ret = nd[p]->insertBefore(nd[c], r < 0 ? 0 : nd[r]);
     else if (op == 1) ret = nd[p]->removeChild(nd[c]);
     else { VX_ASSUME(r >= 0 && r != c);         // replaceChild(new, old) with new == old is implementation dependent in DOM Core: not judged
            ret = nd[p]->replaceChild(nd[c], nd[r]); }
   } catch (const DOMException& e) { code = e.code; }
+#endif
   // ---- the DOM Core definition on the model
   bool hier = false, notfound = false;
   if (op == 0 || op == 2) {
@@ -120,6 +130,7 @@ extern "C" void harness_treelinks(void) {
   VX_ASSERT(E1->fParent.fFirstChild == (cnt[0] ? nd[lst[0][0]] : 0) && E2->fParent.fFirstChild == (cnt[1] ? nd[lst[1][0]] : 0) && F->fParent.fFirstChild == (cnt[3] ? nd[lst[3][0]] : 0),
             "every parent's first child is the first node of its list in the reference DOM");
   // and through the public getters for the operand parent
+#ifdef GETTERS
   if (p != 2) {
     DOMNode* n = nd[p]->getFirstChild(); DOMNode* prev = 0;
     for (int k = 0; k < NN; k++) if (k < cnt[p]) {
@@ -130,4 +141,5 @@ extern "C" void harness_treelinks(void) {
     }
     VX_ASSERT(n == 0 && nd[p]->getLastChild() == prev, "the child list ends where the reference DOM's does; lastChild is its last node");
   }
+#endif
 }
